@@ -12,7 +12,8 @@ static CC_SListIter it;
 static CC_SListZipIter zit;
 static int it_o, it_o2, it_changed;
 static int sparse;   /* obs=sparse on a constructor line: no observation through the library except by `observe` */
-static void shim_reset(void) { for (int i = 0; i < NSLOT; i++) L[i] = NULL; it_kind = 0; sparse = 0; }
+static void links_reset(void);
+static void shim_reset(void) { for (int i = 0; i < NSLOT; i++) L[i] = NULL; it_kind = 0; sparse = 0; links_reset(); }
 
 static int cmp_num(const void *a, const void *b) { uintptr_t x = (uintptr_t)a, y = (uintptr_t)b; return x < y ? -1 : x > y; }
 static int cmp_key(const void *a, const void *b) { uintptr_t x = (uintptr_t)a % 10, y = (uintptr_t)b % 10; return x < y ? -1 : x > y; }
@@ -61,6 +62,58 @@ static void o_ptr(const char *name, int k, SNode *p) {
     long q = pos_of(p);
     if (q < 0) o(" %s%d=?", name, k); else o(" %s%d=%ld", name, k, q);
 }
+/* ---- raw link structure: every node gets a display id when it is first seen on a walk (all live slots in ascending
+   order, along `next` from `head`) and keeps it while it stays on some list; `links<k>=[id:data:next,...]` prints the
+   actual next pointers through that table (`-` NULL, `?` a pointer to no listed node).  The Lean driver runs the
+   pointer-level model (Model/PSList.lean) alongside and numbers its nodes in the same way, so L3 compares the link
+   structure and the identity of the nodes.  After an operation that has no pointer-level model (sort, filter_mut, mk_*, iterator mutators)
+   both sides renumber from scratch. */
+#define DCAP (1u << 19)
+typedef struct { SNode *p; unsigned long id; unsigned long gen; } DEnt;
+static DEnt dtab[2][DCAP];
+static unsigned long dgen[2], dgen_ctr, dnext_id;
+static int dcur, links_renumber;
+static size_t d_hash(SNode *p) { return (size_t)((((uintptr_t)p) >> 4) * 2654435761u) & (DCAP - 1); }
+static long d_get(int t, SNode *p) {
+    for (size_t i = d_hash(p);; i = (i + 1) & (DCAP - 1)) {
+        DEnt *e = &dtab[t][i];
+        if (e->gen != dgen[t]) return -1;
+        if (e->p == p) return (long)e->id;
+    }
+}
+static void d_put(int t, SNode *p, unsigned long id) {
+    for (size_t i = d_hash(p);; i = (i + 1) & (DCAP - 1)) {
+        DEnt *e = &dtab[t][i];
+        if (e->gen != dgen[t]) { e->p = p; e->id = id; e->gen = dgen[t]; return; }
+        if (e->p == p) return;
+    }
+}
+static void links_reset(void) { dgen[0] = ++dgen_ctr; dgen[1] = ++dgen_ctr; dnext_id = 0; links_renumber = 0; }
+static void links_prepass(void) {
+    if (!dgen_ctr) links_reset();
+    int nt = 1 - dcur;
+    dgen[nt] = ++dgen_ctr;
+    for (int k = 0; k < NSLOT; k++) if (L[k]) {
+        size_t cnt = 0;
+        for (SNode *n = L[k]->head; n && cnt < L[k]->size + 4; n = n->next, cnt++) {
+            if (d_get(nt, n) >= 0) break;
+            long id = links_renumber ? -1 : d_get(dcur, n);
+            d_put(nt, n, id >= 0 ? (unsigned long)id : dnext_id++);
+        }
+    }
+    dcur = nt; links_renumber = 0;
+}
+static void o_did(SNode *p) { if (!p) { o("-"); return; } long id = d_get(dcur, p); if (id < 0) o("?"); else o("%ld", id); }
+static void o_links(int k) {
+    CC_SList *l = L[k];
+    o(" links%d=[", k);
+    size_t cnt = 0; int first = 1;
+    for (SNode *n = l->head; n && cnt < l->size + 4; n = n->next, cnt++) {
+        if (!first) o(","); first = 0;
+        o_did(n); o(":%llu:", VAL(n->data)); o_did(n->next);
+    }
+    o("] hd%d=", k); o_did(l->head); o(" tl%d=", k); o_did(l->tail);
+}
 static void phys_slot(int k) {
     CC_SList *l = L[k];
     const char *walk = NULL;
@@ -84,10 +137,12 @@ static void phys_slot(int k) {
         o(" zitidx%d=%zu", k, zit.index);
         o_ptr("zitcur", k, a ? zit.l1_current : zit.l2_current); o_ptr("zitprev", k, a ? zit.l1_prev : zit.l2_prev);
         o_ptr("zitnext", k, a ? zit.l1_next : zit.l2_next); }
+    o_links(k);
     if (walk) o(" WALK=%s", walk);
 }
 static void phys(void) {
     int any = 0;
+    links_prepass();
     for (int k = 0; k < NSLOT; k++) if (L[k]) { if (any) o(" "); phys_slot(k); any = 1; }
     if (!any) o("-");
 }
@@ -101,8 +156,16 @@ static void o_out(enum cc_stat st, void *out) { o_stat(st); if (st == CC_OK) o("
 static void do_op(Cmd *c) {
     int k = (int)kv_u64(c, "o", 0), from = (int)kv_u64(c, "from", 1), to = (int)kv_u64(c, "to", 1);
     uint64_t v = pos_u64(c, 0), idx = kv_u64(c, "idx", 0);
+    int noout = (int)kv_u64(c, "noout", 0);   /* CONVENTIONS Addendum 3: pass NULL for the optional out-pointer(s) */
     int is_it = !strncmp(c->op, "it_", 3) || !strncmp(c->op, "zit_", 4);
     if (!is_it && !is_op(c, "observe")) it_kind = 0;
+    {   /* operations without a pointer-level model: renumber the nodes afterwards (Driver/SList.lean: plUnsupported) */
+        static const char *un[] = { "sort", "filter_mut", "mk_sub", "mk_copy_shallow", "mk_copy_deep", "mk_filter",
+            "it_add", "it_remove", "it_replace", "zit_add", "zit_remove", "zit_replace", NULL };
+        int k0 = (int)kv_u64(c, "o", 0), f0 = (int)kv_u64(c, "from", 1), t0 = (int)kv_u64(c, "to", 1);
+        if (k0 >= 0 && k0 < NSLOT && f0 >= 0 && f0 < NSLOT && t0 >= 0 && t0 < NSLOT)
+            for (int i = 0; un[i]; i++) if (is_op(c, un[i])) links_renumber = 1;
+    }
     if (!strncmp(c->op, "new", 3) && !strcmp(kv_str(c, "obs", "full"), "sparse")) sparse = 1;
     if (k < 0 || k >= NSLOT || from < 0 || from >= NSLOT || to < 0 || to >= NSLOT) { o("st=- badslot "); goto done; }
     if (is_op(c, "observe")) { o("st=- "); sweep_slot = -1; obs_all(); o_sep(); phys(); return; }
@@ -144,9 +207,9 @@ static void do_op(Cmd *c) {
             void *out1 = NULL, *out2 = NULL; enum cc_stat st;
             SNode *cur = want == 3 ? ((zit.l1_current && zit.l2_current) ? zit.l1_current : NULL) : it.current;
             if (!strcmp(sub, "next")) {
-                st = want == 1 ? cc_slist_iter_next(&it, &out1) : cc_slist_zip_iter_next(&zit, &out1, &out2);
+                st = want == 1 ? cc_slist_iter_next(&it, noout ? NULL : &out1) : cc_slist_zip_iter_next(&zit, noout ? NULL : &out1, noout ? NULL : &out2);
                 if (st == CC_OK) it_changed = 0;
-                o_stat(st); if (st == CC_OK) { o(" out=%llu", VAL(out1)); if (want == 3) o(" out2=%llu", VAL(out2)); } o(" ");
+                o_stat(st); if (st == CC_OK && !noout) { o(" out=%llu", VAL(out1)); if (want == 3) o(" out2=%llu", VAL(out2)); } o(" ");
             } else if (!strcmp(sub, "add")) {
                 if (!cur || it_changed) { o("st=- contract "); goto done; }
                 st = want == 1 ? cc_slist_iter_add(&it, PTR(v)) : cc_slist_zip_iter_add(&zit, PTR(v), PTR(pos_u64(c, 1)));
@@ -154,13 +217,13 @@ static void do_op(Cmd *c) {
                 o_stat(st); o(" ");
             } else if (!strcmp(sub, "remove")) {
                 if (cur && it_changed) { o("st=- contract "); goto done; }
-                st = want == 1 ? cc_slist_iter_remove(&it, &out1) : cc_slist_zip_iter_remove(&zit, &out1, &out2);
+                st = want == 1 ? cc_slist_iter_remove(&it, noout ? NULL : &out1) : cc_slist_zip_iter_remove(&zit, noout ? NULL : &out1, noout ? NULL : &out2);
                 if (st == CC_OK) it_changed = 1;
-                o_stat(st); if (st == CC_OK) { o(" out=%llu", VAL(out1)); if (want == 3) o(" out2=%llu", VAL(out2)); } o(" ");
+                o_stat(st); if (st == CC_OK && !noout) { o(" out=%llu", VAL(out1)); if (want == 3) o(" out2=%llu", VAL(out2)); } o(" ");
             } else if (!strcmp(sub, "replace")) {
-                st = want == 1 ? cc_slist_iter_replace(&it, PTR(v), &out1)
-                               : cc_slist_zip_iter_replace(&zit, PTR(v), PTR(pos_u64(c, 1)), &out1, &out2);
-                o_stat(st); if (st == CC_OK) { o(" out=%llu", VAL(out1)); if (want == 3) o(" out2=%llu", VAL(out2)); } o(" ");
+                st = want == 1 ? cc_slist_iter_replace(&it, PTR(v), noout ? NULL : &out1)
+                               : cc_slist_zip_iter_replace(&zit, PTR(v), PTR(pos_u64(c, 1)), noout ? NULL : &out1, noout ? NULL : &out2);
+                o_stat(st); if (st == CC_OK && !noout) { o(" out=%llu", VAL(out1)); if (want == 3) o(" out2=%llu", VAL(out2)); } o(" ");
             } else if (!strcmp(sub, "index")) {
                 size_t ix = want == 1 ? cc_slist_iter_index(&it) : cc_slist_zip_iter_index(&zit);
                 o("st=- out=%zu ", ix);
@@ -178,13 +241,13 @@ static void do_op(Cmd *c) {
         enum cc_stat st = is_op(c, "add_all") ? cc_slist_add_all(l, L[from]) : is_op(c, "add_all_at") ? cc_slist_add_all_at(l, L[from], idx)
                         : is_op(c, "splice") ? cc_slist_splice(l, L[from]) : cc_slist_splice_at(l, L[from], idx);
         o_stat(st); o(" ");
-    } else if (is_op(c, "remove")) { void *out = NULL; enum cc_stat st = cc_slist_remove(l, PTR(v), &out); o_out(st, out); o(" ");
-    } else if (is_op(c, "remove_at")) { void *out = NULL; enum cc_stat st = cc_slist_remove_at(l, idx, &out); o_out(st, out); o(" ");
-    } else if (is_op(c, "remove_first")) { void *out = NULL; enum cc_stat st = cc_slist_remove_first(l, &out); o_out(st, out); o(" ");
-    } else if (is_op(c, "remove_last")) { void *out = NULL; enum cc_stat st = cc_slist_remove_last(l, &out); o_out(st, out); o(" ");
+    } else if (is_op(c, "remove")) { void *out = NULL; enum cc_stat st = cc_slist_remove(l, PTR(v), noout ? NULL : &out); if (noout) o_stat(st); else o_out(st, out); o(" ");
+    } else if (is_op(c, "remove_at")) { void *out = NULL; enum cc_stat st = cc_slist_remove_at(l, idx, noout ? NULL : &out); if (noout) o_stat(st); else o_out(st, out); o(" ");
+    } else if (is_op(c, "remove_first")) { void *out = NULL; enum cc_stat st = cc_slist_remove_first(l, noout ? NULL : &out); if (noout) o_stat(st); else o_out(st, out); o(" ");
+    } else if (is_op(c, "remove_last")) { void *out = NULL; enum cc_stat st = cc_slist_remove_last(l, noout ? NULL : &out); if (noout) o_stat(st); else o_out(st, out); o(" ");
     } else if (is_op(c, "remove_all")) { o_stat(cc_slist_remove_all(l)); o(" ");
     } else if (is_op(c, "remove_all_cb")) { o_stat(cc_slist_remove_all_cb(l, cb_record)); o(" "); o_cb(); o(" ");
-    } else if (is_op(c, "replace_at")) { void *out = NULL; enum cc_stat st = cc_slist_replace_at(l, PTR(v), idx, &out); o_out(st, out); o(" ");
+    } else if (is_op(c, "replace_at")) { void *out = NULL; enum cc_stat st = cc_slist_replace_at(l, PTR(v), idx, noout ? NULL : &out); if (noout) o_stat(st); else o_out(st, out); o(" ");
     } else if (is_op(c, "get_first")) { void *out = NULL; enum cc_stat st = cc_slist_get_first(l, &out); o_out(st, out); o(" ");
     } else if (is_op(c, "get_last")) { void *out = NULL; enum cc_stat st = cc_slist_get_last(l, &out); o_out(st, out); o(" ");
     } else if (is_op(c, "get_at")) { void *out = NULL; enum cc_stat st = cc_slist_get_at(l, idx, &out); o_out(st, out); o(" ");
